@@ -70,6 +70,11 @@ theorem lcb_one_burst (el : Nat) (flat mem : List Entry) (h : lcbMembers flat = 
 permutation of a loop nest visits the same offsets. -/
 theorem loop_order_irrelevant {l1 l2 : List (Nat × Nat × Nat)} (h : l1 ~ l2) : offs l1 ~ offs l2 := offs_perm h
 
+/-- Steps 6.2/6.3 for EVERY number of loops: the nest assembled by the code's index arithmetic (innermost loop to
+`upper[-1]`, wrapped by `upper[n-2-i]`, the `i`-th loop from outside advancing by `remaining_strides_list[i]`) is the
+list of remaining strides in order, each with its own trip count and steps. -/
+theorem loop_nest_faithful (rest : List Entry) : buildLoops rest = rest.map Entry.triple := buildLoops_eq rest
+
 /-- `ResolutionConsistent` holds for EVERY result of `TransformDMA` (every rank, depth, static or dynamic entry,
 descriptor): wherever a step or bound is static in the (reconstructed) layout, the value the emitted `get_bound_ops` /
 `get_step_ops` ops compute at run time is that bound, resp. that step × element size. (Was an assumed clause.) -/
@@ -124,11 +129,13 @@ theorem simpleCopy_moves (src dst : MemTy) (rs rd : Rt) (p : DmaProg) (h : simpl
   rw [he, offs_dense _ (rowMajor_dense _ _), rowMajor_prodT]
   unfold simpleCopy at h
   split at h
-  · split at h
-    · simp at h
-    · injection h with h; subst h
-      rw [moves_oneD]; rfl
   · simp at h
+  · split at h
+    · split at h
+      · simp at h
+      · injection h with h; subst h
+        rw [moves_oneD]; rfl
+    · simp at h
 
 /-- With fix F21 (membership by position) only the block's own members and loops of trip count 1 are dropped, for
 EVERY layout pair (no distinctness assumption). -/
